@@ -100,7 +100,7 @@ func (c *c01cluster) truth() (perEp map[string]int, perNode []map[string]int) {
 type c01req struct {
 	Entry int    `json:"entry"`
 	Ep    string `json:"endpoint"`
-	Mode  string `json:"mode"` // host | header | conflict | tcp
+	Mode  string `json:"mode"` // host | header | conflict | conflict-listed | tcp
 }
 
 // issue performs one request and classifies the outcome.
@@ -164,6 +164,12 @@ func (c *c01cluster) issueT(q c01req, nonce string, tcpTimeout time.Duration) (s
 		other := c01HTTPEps[(indexOf(c01HTTPEps, q.Ep)+1)%len(c01HTTPEps)]
 		host = other + ".piko.test:8000"
 		hs = append(hs, [2]string{"X-Piko-Endpoint", q.Ep})
+	case "conflict-listed":
+		// as "conflict", and the client lists the routing header in Connection
+		// (legal HTTP: it asks proxies to drop that header when forwarding)
+		other := c01HTTPEps[(indexOf(c01HTTPEps, q.Ep)+1)%len(c01HTTPEps)]
+		host = other + ".piko.test"
+		hs = append(hs, [2]string{"X-Piko-Endpoint", q.Ep}, [2]string{"Connection", "x-piko-endpoint"})
 	}
 	hs = append(hs, [2]string{"X-Nonce", nonce})
 	resp, err := Get(n.ProxyAddr(), host, "/probe?n="+nonce, hs, 20*time.Second)
@@ -204,7 +210,7 @@ func modesFor(ep string) []string {
 	if isTCPEp(ep) {
 		return []string{"tcp"}
 	}
-	return []string{"host", "header", "conflict"}
+	return []string{"host", "header", "conflict", "conflict-listed"}
 }
 
 type c01fail struct {
